@@ -1,11 +1,11 @@
-\* C19 thorough, the dimension "what was sent": every proper subset of every table with per-version magics, 3-version window
+\* C19 thorough, the dimension "what was sent": every proper subset of every table with per-version magics, 4-version window
 CONSTANTS
-  W = 3
+  W = 4
   CliMagics = {1, 2}
   SrvMagics = {1}
   CliPerVersion = TRUE
   SrvPerVersion = FALSE
-  MaxSize = 3
+  MaxSize = 4
   QCases <- AdvQ
   FlagSpace <- OnlyNoFlags
   FlagsInModel = FALSE
